@@ -41,6 +41,8 @@ type pGen struct {
 	hashBias bool
 	noFail   bool
 	noAssign bool
+	partials bool   // may call partial("pp") / partial("pq") (the context must have a feeder)
+	salt     string // makes regular-expression patterns unique per program
 	inLoop   int
 }
 
@@ -130,7 +132,7 @@ func (g *pGen) cond(d int) []string {
 	case 5:
 		return []string{"unknownName"}
 	default:
-		return append(append(g.strExpr(0), "~="), `"^s"`)
+		return append(append(g.strExpr(0), "~="), `"^s`+g.salt+`"`)
 	}
 }
 
@@ -299,6 +301,9 @@ func (g *pGen) stmt(depth int) []pUnit {
 	case k == 13 && !g.noFail && g.r.Chance(1, 8):
 		g.features["failing-statement"] = true
 		return []pUnit{tag("<%=", true, pick(g.r, []string{"nosuchvar", "1 / 0", "xs[9]", "tt.Nope"}))}
+	case k == 15 && g.partials:
+		g.features["partial"] = true
+		return []pUnit{tag("<%=", true, "partial", "(", pick(g.r, []string{`"pp"`, `"pq"`}), ",", "{", "iv", ":", fmt.Sprint(g.r.Intn(9)), "}", ")")}
 	case k == 14 && depth > 0:
 		g.features["contentFor"] = true
 		c := g.fresh("c")
@@ -342,11 +347,32 @@ type progEnv struct {
 
 // progCtx is the data every generated program runs against. shared says the
 // data is shared between executions (then programs must not mutate it).
-func progCtx(env *progEnv) *plush.Context {
+func progCtx(env *progEnv) *plush.Context { return progCtxV(env, 0) }
+
+// progCtxV builds the data in one of two variants; variant 1 differs in
+// scalar values, collection contents and in what the partial feeder returns.
+func progCtxV(env *progEnv, variant int) *plush.Context {
 	ctx := plush.NewContext()
-	ctx.Set("ci", 3)
-	ctx.Set("cs", "str<")
-	ctx.Set("xs", []string{"x0", "x1", "x2"})
+	if variant == 1 {
+		ctx.Set("ci", 4)
+		ctx.Set("cs", "alt&")
+		ctx.Set("xs", []string{"y0", "y1", "y2", "y3"})
+		ctx.Set("partialFeeder", func(n string) (string, error) {
+			return "Q{" + n + ":<%= cs %>,<%= iv %>}", nil
+		})
+	} else {
+		ctx.Set("ci", 3)
+		ctx.Set("cs", "str<")
+		ctx.Set("xs", []string{"x0", "x1", "x2"})
+		ctx.Set("partialFeeder", func(n string) (string, error) {
+			return "P[" + n + ":<%= ci %>,<%= iv %>]", nil
+		})
+	}
+	progCtxCommon(ctx, env)
+	return ctx
+}
+
+func progCtxCommon(ctx *plush.Context, env *progEnv) {
 	ctx.Set("nums", []int{5, 6, 7})
 	ctx.Set("mp", map[string]int{"a": 1, "b": 2, "c": 3})
 	ctx.Set("hh", map[string]interface{}{"k": "hv"})
@@ -362,5 +388,4 @@ func progCtx(env *progEnv) *plush.Context {
 		s, err := h.Block()
 		return template.HTML("(" + s + ")"), err
 	})
-	return ctx
 }
